@@ -199,6 +199,40 @@ pub fn gen_nid(rng: &mut Rng, thorough: bool, out: &mut String) {
     }
     nid_deser("é", out);
     nid_deser(&format!("0x{}é", "a".repeat(62)), out);
+    // characters outside ASCII that Unicode-aware operations map to hex digits or drop: ligatures
+    // (upper-casing U+FB00 gives "FF"), full-width and other scripts' digits and letters, letters
+    // that case-fold into ASCII, combining marks, invisible characters, byte-order mark
+    {
+        let raw: [u8; 32] = rng.bytes(32).try_into().unwrap();
+        let h = hex::encode(raw);
+        let specials = [
+            '\u{fb00}', '\u{fb01}', '\u{fb02}', '\u{fb03}', '\u{fb05}', '\u{df}', '\u{ff10}', '\u{ff19}', '\u{ff21}',
+            '\u{ff26}', '\u{ff41}', '\u{ff46}', '\u{660}', '\u{669}', '\u{966}', '\u{1d7ce}', '\u{1d7d7}', '\u{b2}',
+            '\u{b9}', '\u{2460}', '\u{2160}', '\u{212a}', '\u{212b}', '\u{391}', '\u{410}', '\u{430}', '\u{435}',
+            '\u{441}', '\u{301}', '\u{200b}', '\u{200d}', '\u{feff}', '\u{a0}', '\u{2028}', '\u{3000}', '\u{130}',
+            '\u{131}', '\u{1e9e}', '\u{e9}', '\u{c9}', '\u{7f}', '\u{0}', '\t', '\r', '\n',
+        ];
+        for (i, c) in specials.iter().enumerate() {
+            let hc: Vec<char> = h.chars().collect();
+            let pos = (i * 7) % 62;
+            let one: String = hc.iter().enumerate().map(|(j, x)| if j == pos { *c } else { *x }).collect();
+            let two: String = hc
+                .iter()
+                .enumerate()
+                .filter(|(j, _)| *j != pos + 1)
+                .map(|(j, x)| if j == pos { *c } else { *x })
+                .collect();
+            let bytes64: String = format!("{}{}", c, &h[..64 - c.len_utf8()]);
+            let front = format!("{c}{h}");
+            let back = format!("{h}{c}");
+            let all = c.to_string().repeat(32);
+            for t in [one, two, bytes64, front, back, all] {
+                nid_deser(&t, out);
+                nid_deser(&format!("0x{t}"), out);
+            }
+            nid_deser(&format!("{c}0x{h}"), out);
+        }
+    }
 }
 
 /// re-execute one `nid` line (used by replay)
@@ -341,8 +375,28 @@ pub fn gen_ck(rng: &mut Rng, thorough: bool, out: &mut String) {
     }
 }
 
+/// the import alone, from a window that starts `shift` bytes past a 16-byte boundary; returns the
+/// window afterwards
+fn ck_import_at(kind: &str, inp: &[u8], shift: usize) -> Option<Vec<u8>> {
+    let mut backing = vec![0xa5u8; inp.len() + 48];
+    let base = backing.as_ptr().align_offset(16);
+    let start = base + shift;
+    backing[start..start + inp.len()].copy_from_slice(inp);
+    let window = &mut backing[start..start + inp.len()];
+    guard(|| {
+        if kind == "secp" {
+            let _ = CombinedKey::secp256k1_from_bytes(window);
+        } else {
+            let _ = CombinedKey::ed25519_from_bytes(window);
+        }
+    })?;
+    Some(backing[start..start + inp.len()].to_vec())
+}
+
 pub fn ck_line(kind: &str, inp: &[u8], out: &mut String) {
     let mut buf = inp.to_vec();
+    // the state of the caller's buffer must not depend on where the buffer lies in memory
+    let mut odd: Option<Vec<u8>> = None;
     let r = guard(|| {
         let k = if kind == "secp" {
             CombinedKey::secp256k1_from_bytes(&mut buf)
@@ -365,6 +419,18 @@ pub fn ck_line(kind: &str, inp: &[u8], out: &mut String) {
             (p.encode(), exp, signed)
         })
     });
+    if r.is_some() {
+        for shift in 0..16usize {
+            match ck_import_at(kind, inp, shift) {
+                Some(w) if w == buf => {}
+                Some(w) => odd = Some(w),
+                None => {}
+            }
+        }
+    }
+    if let Some(w) = odd {
+        buf = w;
+    }
     match r {
         None => writeln!(out, "ck kind={kind} in={} res=panic", hx(inp)).unwrap(),
         Some(Err(_)) => writeln!(out, "ck kind={kind} in={} res=err buf={}", hx(inp), hx(&buf)).unwrap(),
